@@ -5,5 +5,6 @@ P="$1"; C="$2"; T="${3:-quick}"
 git -C /repo apply "$P" || { echo "seedtest: patch does not apply"; exit 2; }
 ./check "$C" --tier "$T" > work/seed.$$.log 2>&1; rc=$?
 git -C /repo checkout -- . && git -C /repo clean -fdq -- pub streams astool >/dev/null 2>&1
+./regen.sh >/dev/null 2>&1
 grep -E 'VIOLATION|KNOWN-FINDING|\[check\]' work/seed.$$.log | head -8
 echo "rc=$rc"; rm -f work/seed.$$.log
